@@ -860,27 +860,20 @@ Proof. destruct u; reflexivity. Qed.
 (** percent-encoding unreserved octets (in either hex case; any escape may change
     its hex case) changes neither the rule, nor the captured values, nor
     acceptance — outside the three findings *)
-Theorem reencoding_invariant fx rules dflt host q p p' :
-  reenc p p' ->
+(** FindRule + Execute on two related views whose raw paths are [p] and [p'] *)
+Lemma serve_view_rel fx rules dflt u u' p p' :
+  reenc p p' -> u_rawpath u = p -> u_rawpath u' = p' -> urel u u' -> is_empty p = false ->
   guard_F1 rules p p' = false ->
   (fx2 fx = true \/ guard_F2 p p' = false) ->
   (fx3 fx = true \/ guard_F3 rules = false) ->
-  decision_eq (serve fx rules dflt host p q) (serve fx rules dflt host p' q).
+  decision_eq (serve_view fx rules dflt u) (serve_view fx rules dflt u').
 Proof.
-  intros R G1 G2 G3. unfold serve.
-  pose proof (view_reenc host p p' q R) as V.
-  destruct (view host p q) as [u|] eqn:Vu; destruct (view host p' q) as [u'|] eqn:Vu'; inversion V as [|? ? (U & Hc)]; subst;
-    [|exact I].
-  destruct Hc as [[Ep Ep']|Eq].
-  2:{ assert (u = u').
-      { destruct U as (A1 & A2 & A3 & A4 & _). rewrite (hurl_eta u), (hurl_eta u'). congruence. }
-      subst u'. apply decision_eq_refl. }
+  intros R Ep Ep' U Ne G1 G2 G3. unfold serve_view.
+  assert (Ne' : is_empty p' = false) by (rewrite <- (reenc_is_empty _ _ R); exact Ne).
   assert (L : lc_ok (fx2 fx) p = true /\ lc_ok (fx2 fx) p' = true).
   { unfold lc_ok. destruct G2 as [->|G2]; [auto|]. unfold guard_F2 in G2. apply orb_false_iff in G2 as [-> ->].
     rewrite !orb_true_r. auto. }
   destruct L as [L L'].
-  pose proof (view_rawpath_nonempty _ _ _ _ Vu) as Ne. pose proof (view_rawpath_nonempty _ _ _ _ Vu') as Ne'.
-  pose proof U as (_ & _ & _ & _ & Rr). rewrite Ep, Ep' in *.
   assert (F : orel (crel0 rules (fx2 fx)) (find_rule fx rules u) (find_rule fx rules u')).
   { unfold find_rule, lookup_path. rewrite Ep, Ep', Ne, Ne'.
     pose proof (path_segs_reenc p p' R) as S.
@@ -899,6 +892,41 @@ Proof.
   destruct F as [|c c' (E1 & E2 & E3 & _)].
   - destruct dflt; [|exact I]. apply execute_agree; try assumption. constructor.
   - rewrite <- E1. apply execute_agree; assumption.
+Qed.
+
+Theorem reencoding_invariant fx rules dflt host q p p' :
+  reenc p p' ->
+  guard_F1 rules p p' = false ->
+  (fx2 fx = true \/ guard_F2 p p' = false) ->
+  (fx3 fx = true \/ guard_F3 rules = false) ->
+  decision_eq (serve fx rules dflt host p q) (serve fx rules dflt host p' q).
+Proof.
+  intros R G1 G2 G3. unfold serve.
+  pose proof (view_reenc host p p' q R) as V.
+  destruct (view host p q) as [u|] eqn:Vu; destruct (view host p' q) as [u'|] eqn:Vu'; inversion V as [|? ? (U & Hc)]; subst;
+    [|exact I].
+  destruct Hc as [[Ep Ep']|Eq].
+  2:{ assert (u = u').
+      { destruct U as (A1 & A2 & A3 & A4 & _). rewrite (hurl_eta u), (hurl_eta u'). congruence. }
+      subst u'. apply decision_eq_refl. }
+  pose proof (view_rawpath_nonempty _ _ _ _ Vu) as Ne. rewrite Ep in Ne.
+  eapply serve_view_rel; eassumption.
+Qed.
+
+(** the same through the Envoy entry point (no guard for C08-F4 is ever needed
+    there: the received path is used as it is) *)
+Theorem reencoding_invariant_envoy fx rules dflt host q p p' :
+  reenc p p' ->
+  guard_F1 rules p p' = false ->
+  (fx2 fx = true \/ guard_F2 p p' = false) ->
+  (fx3 fx = true \/ guard_F3 rules = false) ->
+  decision_eq (serve_envoy fx rules dflt host p q) (serve_envoy fx rules dflt host p' q).
+Proof.
+  intros R G1 G2 G3. unfold serve_envoy.
+  destruct (is_empty p) eqn:Ne.
+  - destruct p; [|discriminate]. inversion R; subst. apply decision_eq_refl.
+  - eapply serve_view_rel; try eassumption; try reflexivity.
+    unfold urel, view_envoy; simpl. splits; auto. apply reenc_unescape_or_empty; assumption.
 Qed.
 
 (** ** witnesses of the findings (on the pinned code) and non-vacuity *)
@@ -1078,7 +1106,7 @@ Theorem off_rejects_encoded_slash fx rules dflt host q p rid d cs up :
   serve fx rules dflt host p q = Accepted rid d cs up ->
   d = false /\ exists r, In r rules /\ r_id r = rid /\ r_setting r <> Off.
 Proof.
-  intros Es G4 G2. unfold serve. destruct (view host p q) as [u|] eqn:V; [|discriminate].
+  intros Es G4 G2. unfold serve, serve_view. destruct (view host p q) as [u|] eqn:V; [|discriminate].
   assert (Ev : valid_encoded p = true) by (unfold guard_F4 in G4; apply negb_false_iff in G4; exact G4).
   pose proof (view_valid _ _ _ _ V Ev) as Er.
   assert (L : lc_ok (fx2 fx) p = true).
@@ -1103,7 +1131,7 @@ Theorem off_answers_precondition fx rules host q p :
   (forall r, In r rules -> r_setting r = Off) ->
   serve fx rules true host p q = Precondition \/ serve fx rules true host p q = BadRequest.
 Proof.
-  intros Es G4 G2 Hoff. unfold serve. destruct (view host p q) as [u|] eqn:V; [left|right; reflexivity].
+  intros Es G4 G2 Hoff. unfold serve, serve_view. destruct (view host p q) as [u|] eqn:V; [left|right; reflexivity].
   assert (Ev : valid_encoded p = true) by (unfold guard_F4 in G4; apply negb_false_iff in G4; exact G4).
   pose proof (view_valid _ _ _ _ V Ev) as Er.
   assert (L : lc_ok (fx2 fx) p = true).
@@ -1324,7 +1352,7 @@ Theorem nodecode_keeps fx rules dflt host q p rid cs up :
   ((forall r, In r rules -> r_id r = rid -> exists h, r_backend r = Some {| b_host := h; b_rw := None |}) ->
    exists u', up = Some u' /\ u_rawpath u' = p /\ wire_path u' = p).
 Proof.
-  intros Hstar G4 G2 G5 Hst. unfold serve. destruct (view host p q) as [u|] eqn:V; [|discriminate].
+  intros Hstar G4 G2 G5 Hst. unfold serve, serve_view. destruct (view host p q) as [u|] eqn:V; [|discriminate].
   assert (Ev : valid_encoded p = true) by (unfold guard_F4 in G4; apply negb_false_iff in G4; exact G4).
   destruct (view_wf _ _ _ _ V Ev Hstar) as [W Eu].
   pose proof (view_rawpath_nonempty _ _ _ _ V) as Ne. pose proof (view_valid _ _ _ _ V Ev) as Er. rewrite Er in Ne.
@@ -1362,7 +1390,7 @@ Theorem on_decodes fx rules dflt host q p rid cs up :
    exists u', up = Some u' /\ u_rawpath u' = "" /\ u_path u' = unescape_or_empty p /\
               enc_slash (wire_path u') = false).
 Proof.
-  intros Hstar G4 G2 G5 Hst. unfold serve. destruct (view host p q) as [u|] eqn:V; [|discriminate].
+  intros Hstar G4 G2 G5 Hst. unfold serve, serve_view. destruct (view host p q) as [u|] eqn:V; [|discriminate].
   assert (Ev : valid_encoded p = true) by (unfold guard_F4 in G4; apply negb_false_iff in G4; exact G4).
   destruct (view_wf _ _ _ _ V Ev Hstar) as [W Eu].
   pose proof (view_rawpath_nonempty _ _ _ _ V) as Ne. pose proof (view_valid _ _ _ _ V Ev) as Er. rewrite Er in Ne.
@@ -1521,7 +1549,7 @@ Proof.
     destruct (off_rejects_encoded_slash _ _ _ _ _ _ _ _ _ _ E G4 G2 Hserve) as (_ & r & Hr & Hid & Hne).
     elim Hne. apply Hst; assumption. }
   split; [exact Es|]. revert Hserve.
-  unfold serve. destruct (view host p q) as [u|] eqn:V; [|discriminate].
+  unfold serve, serve_view. destruct (view host p q) as [u|] eqn:V; [|discriminate].
   assert (Ev : valid_encoded p = true) by (unfold guard_F4 in G4; apply negb_false_iff in G4; exact G4).
   destruct (view_wf _ _ _ _ V Ev Hstar) as [W Eu].
   pose proof (view_rawpath_nonempty _ _ _ _ V) as Ne. pose proof (view_valid _ _ _ _ V Ev) as Er. rewrite Er in Ne.
@@ -1552,7 +1580,7 @@ Qed.
 (** a malformed escape never reaches heimdall *)
 Theorem malformed_rejected fx rules dflt host q p : unescape p = None -> serve fx rules dflt host p q = BadRequest.
 Proof.
-  intro H. unfold serve. rewrite view_eq.
+  intro H. unfold serve, serve_view. rewrite view_eq.
   destruct (String.eqb p "*" && is_empty q) eqn:E.
   { apply andb_true_iff in E as [E _]. apply String.eqb_eq in E. subst p. discriminate. }
   destruct (negb (has_prefix "/" p) || has_bad_target_byte p); [reflexivity|]. rewrite H. reflexivity.
@@ -1780,3 +1808,50 @@ Theorem F5_nodecode_repaired_refuted :
   (exists up, serve repaired w_rules_nd false "h" "/files/x$$$escaped-slash$$$y" "" = Accepted "nd" false [("rest", "x%2Fy")] up) /\
   decode_keep_slash "x$$$escaped-slash$$$y" = "x$$$escaped-slash$$$y".
 Proof. splits; try (vm_compute; reflexivity). eexists. vm_compute. reflexivity. Qed.
+
+(** * Part G — the Envoy entry point *)
+
+Theorem off_rejects_encoded_slash_envoy fx rules dflt host q p rid d cs up :
+  enc_slash p = true ->
+  (fx2 fx = true \/ contains "%2f" p = false) ->
+  serve_envoy fx rules dflt host p q = Accepted rid d cs up ->
+  d = false /\ exists r, In r rules /\ r_id r = rid /\ r_setting r <> Off.
+Proof.
+  intros Es G2. unfold serve_envoy, serve_view. set (u := view_envoy host p q).
+  assert (L : lc_ok (fx2 fx) p = true).
+  { unfold lc_ok. destruct G2 as [->| ->]; [reflexivity | apply orb_true_r]. }
+  assert (Hs : has_enc_slash (fx2 fx) (u_rawpath u) = true) by (simpl; rewrite has_enc_slash_lc; assumption).
+  destruct (find_rule fx rules u) as [c|] eqn:F.
+  - unfold execute. destruct (r_setting (cd_rule c)) eqn:Est.
+    + rewrite Hs. discriminate.
+    + intro H; inversion H; subst. split; [reflexivity|]. exists (cd_rule c).
+      splits; [eapply find_rule_in; eassumption | reflexivity | congruence].
+    + intro H; inversion H; subst. split; [reflexivity|]. exists (cd_rule c).
+      splits; [eapply find_rule_in; eassumption | reflexivity | congruence].
+  - destruct dflt; [|discriminate]. unfold execute. rewrite Hs. discriminate.
+Qed.
+
+Theorem reencoding_invariant_envoy_repaired rules dflt host q p p' :
+  reenc p p' -> guard_F1 rules p p' = false ->
+  decision_eq (serve_envoy repaired rules dflt host p q) (serve_envoy repaired rules dflt host p' q).
+Proof. intros R G1. apply reencoding_invariant_envoy; auto. Qed.
+
+Theorem off_rejects_encoded_slash_envoy_repaired rules dflt host q p rid d cs up :
+  enc_slash p = true ->
+  serve_envoy repaired rules dflt host p q = Accepted rid d cs up ->
+  d = false /\ exists r, In r rules /\ r_id r = rid /\ r_setting r <> Off.
+Proof. intros E. apply off_rejects_encoded_slash_envoy; auto. Qed.
+
+(** the witness of C08-F4 is rejected when it arrives through Envoy *)
+Example F4_envoy_no_witness :
+  serve_envoy repaired w_rules_F4 true "h" "/a%2Fb""" "" = Precondition.
+Proof. vm_compute. reflexivity. Qed.
+
+(** … but C08-F4 still shows at the upstream side under `no_decode`: net/url does
+    not accept the raw path of the upstream URL and writes the re-encoded decoded
+    path into the request line *)
+Example F4_envoy_upstream_witness :
+  guard_F4 "/files/a%2Fb^" = true /\
+  exists u, serve_envoy repaired w_rules_nd false "h" "/files/a%2Fb^" "" = Accepted "nd" false [("rest", "a%2Fb^")] (Some u) /\
+            u_rawpath u = "/files/a%2Fb^" /\ wire_path u = "/files/a/b%5E".
+Proof. split; [reflexivity|]. eexists. splits; vm_compute; reflexivity. Qed.
